@@ -22,8 +22,8 @@ func init() {
 		},
 		Rules: []RuleDef{
 			{Name: "C10-LOCK", Floor: 12, Doc: "every read of a VM registry map happens under vm.mu (R or W), every write under the write lock; helpers are checked at each call site; no exit with the lock held", Run: c10Lock},
-			{Name: "C10-ATOMIC", Floor: 3, Doc: "a store to a registry that is preceded by a lookup of the same registry (duplicate rejection) lies in the same critical section as that lookup", Run: func(r *Run) {}},
-			{Name: "C10-FIELDS", Floor: 2, Doc: "every other VM field that is written after construction is accessed under vm.mu or is an atomic/sync type", Run: func(r *Run) {}},
+			{Name: "C10-ATOMIC", Floor: 2, Doc: "a store to a registry that is preceded by a lookup of the same registry (duplicate rejection) lies in the same critical section as that lookup", Run: func(r *Run) {}},
+			{Name: "C10-FIELDS", Floor: 1, Doc: "every other VM field that is written after construction is accessed under vm.mu or is an atomic/sync type", Run: func(r *Run) {}},
 		},
 	})
 }
